@@ -112,13 +112,8 @@ func (e *Env) metricTables(l *facts.Level, fv *types.Var, m *spec.Metric) {
 		// domain: every string in a table the parser reads, every specification code, "", lower-case variant, other
 		strs := map[string]bool{"": true}
 		for t := range e.F.TablesRead(g) {
-			for _, en := range t.Entries {
-				if s, ok := stringOf(en.Val); ok {
-					strs[s] = true
-				}
-				if s, ok := stringOf(en.Key); ok {
-					strs[s] = true
-				}
+			for _, s := range t.Strings() {
+				strs[s] = true
 			}
 		}
 		for code := range specCodes {
@@ -140,8 +135,12 @@ func (e *Env) metricTables(l *facts.Level, fv *types.Var, m *spec.Metric) {
 				continue
 			}
 			if _, isCode := specCodes[s]; isCode {
-				back, ok, _ := e.codeOf(T, r)
-				c.Check(ok && back == s, "parse", cons, gpos, "parses to "+r.String()+", which prints as the same code", fmt.Sprintf("parses to %s, which prints as %q", r, back))
+				back, ok, why := e.codeOf(T, r)
+				if !ok {
+					c.Undecided("parse", cons, gpos, "parses to "+r.String()+", whose printed form is not decided: "+why)
+					continue
+				}
+				c.Check(back == s, "parse", cons, gpos, "parses to "+r.String()+", which prints as the same code", fmt.Sprintf("parses to %s, which prints as %q", r, back))
 			} else {
 				c.Check(r.Obj == en.Zero, "parse", cons, gpos, "not a specification code: parses to the zero constant", fmt.Sprintf("%q is not a code of %s but parses to %s", s, m.Name, r))
 			}
@@ -442,10 +441,8 @@ func (e *Env) versionTables() {
 		g := ps[0]
 		strs := map[string]bool{"": true, "3": true, "2.0": true, "4.0": true, "unknown": true}
 		for t := range e.F.TablesRead(g) {
-			for _, en := range t.Entries {
-				if s, ok := stringOf(en.Val); ok {
-					strs[s] = true
-				}
+			for _, s := range t.Strings() {
+				strs[s] = true
 			}
 		}
 		for s := range labels {
@@ -462,7 +459,11 @@ func (e *Env) versionTables() {
 				continue
 			}
 			if labels[s] {
-				back, _, _ := e.codeOf(T, r)
+				back, ok, why := e.codeOf(T, r)
+				if !ok {
+					c.Undecided("version-table", cons, e.P.Pos(g.Pos()), "parses to "+r.String()+", whose printed form is not decided: "+why)
+					continue
+				}
 				c.Check(back == s, "version-table", cons, e.P.Pos(g.Pos()), "parses to "+r.String(), fmt.Sprintf("parses to %s which prints as %q", r, back))
 			} else {
 				c.Check(r.Obj == en.Zero, "version-table", cons, e.P.Pos(g.Pos()), "parses to unknown", "unsupported label parses to "+r.String())
